@@ -91,7 +91,7 @@ def parse_abbreviated_size(s):
         return None
     # ASCII only: with s.upper() and Unicode \d, "1k\u0131b" (dotless i) was
     # read as 1 KiB and digits of any script were taken as the number
-    m = re.match(r"^(\d+)\s*([KMGTPE]?[I]?[B]?)$", s, re.IGNORECASE | re.ASCII)
+    m = re.match(r"^(\d+)\s*([KMGTPE]?[I]?[B]?)\Z", s, re.IGNORECASE | re.ASCII)
     if not m:
         raise ValueError("unparseable value %s" % s)
     number, suffix = m.groups()
